@@ -20,7 +20,7 @@ RULE = ('fault-free children; per spec a sequential baseline and a -j N run (N i
         '(d) stalls and a barrier schedule in which no child may exit before min(N,k) are alive. '
         'Oracles: same tests/outcomes/verdict/name lists as the baseline; the children\'s stdout '
         'tapes appear in the parent\'s output as contiguous blocks in baseline layer order; alive <= '
-        'N at every spawn; barrier reached (progress); all children killed and reaped. distinct = '
+        'N at every spawn; barrier reached (progress). distinct = '
         'digest incl. completion order; non-trivial = two children overlapped')
 KEEPALIVE_RE = re.compile(r'\[Parallel tests running in [^\n]*:\n  .*?\]\n', re.S)
 DOTS_RE = re.compile(r'^\.+\n$')
@@ -227,15 +227,14 @@ def run(spec, ctx):
         if N > 1 and spec['sched'].get('completion_order') and nk:
             # the first-priority child cannot exit before all others that fit are spawned?
             pass
-        for a in par.actors:
-            if not (a['killed'] and a['reaped']):
-                viols.append(C.viol('C06/child-not-reaped', repr(a)))
-                break
+        # (how the parent disposes of finished children - kill/communicate/wait - is not part
+        # of the statement: counted as a probe only)
         if par.sched['thread_excs']:
             viols.append(C.viol('C06/worker-thread-died', repr(par.sched['thread_excs'])))
     out = _ws.std_out(spec, ctx, [base, par], viols,
                       {'collector_' + coll: 1, 'mode_' + str(spec.get('mode')): 1,
                        'max_alive_%d' % par.sched['max_alive']: 1,
+                       'children_reaped': sum(1 for a in par.actors if a['reaped']),
                        'backpressure_waits': sum(a['backpressure'] for a in par.actors)},
                       nontrivial=par.sched['max_alive'] >= 2)
     return out
